@@ -28,6 +28,7 @@ RULE += ' ' + 'In 30 % of the multi-process throttle runs one calling process is
 RULE += ' ' + "In 40 % of the multi-process throttle runs the processes' functions carry different module names under the one name= argument."
 RULE += ' ' + 'A fifth of the throttle runs use JSONDisk.'
 RULE += ' ' + 'In one throttle run in seven the clock is set back after every second call (the bound is taken in true elapsed time).'
+RULE += ' ' + 'One throttle run in sixteen uses rates like 20 per 600 s or 100 per hour with a drained bucket and minutes of idleness.'
 ASSUMPTIONS = ['throttle is given time_func/sleep_func bound to the virtual clock (the seam the recipe offers); a virtual sleep lasts at least the requested time plus >= 1 microsecond',
                'Averager values are dyadic rationals so sums are exact in any order']
 PROBES = ('throttle_delayed', 'throttle_calls', 'throttle_raising_calls', 'throttle_across_processes', 'throttle_after_restart', 'avg_pops', 'lock_wait', 'handed_over_by_pickle', 'caller_killed', 'same_name_other_module', 'json_disk', 'clock_set_back')
@@ -95,6 +96,16 @@ def gen_case(seed, tier):
     # a restart: after the first callers are done, a new process on the same directory whose clock reads much LOWER (a
     # monotonic clock after a reboot, a device without a battery-backed clock) decorates the function again and calls it
     cfg['reboot'] = rng.random() < 0.15
+    if rng.random() < 0.06:
+        # rates of the kind '100 per hour': a burst that drains the bucket, minutes of idleness, another burst
+        cfg['count'], cfg['seconds'] = rng.choice(((20, 600), (100, 3600), (30, 300)))
+        burst = cfg['count'] + 2
+        cfg['arrivals'] = [[0.0] * burst + [rng.choice((400.0, 700.0))] + [0.0] * burst]
+        cfg['raises'] = [[False] * len(cfg['arrivals'][0])]
+        cfg['procs'] = cfg['reboot'] = False
+        cfg['expire'] = None
+        cfg['work'] = 0.0
+        cfg['long_period'] = True
     if rng.random() < 0.15 and not cfg['reboot']:
         cfg['clock_slips'] = rng.choice((0.01, 0.01, 0.3))
     if cfg['procs'] and ncallers >= 2 and rng.random() < 0.3:
